@@ -31,6 +31,41 @@ pub struct ExSendError<T>(crossbeam_channel::SendError<T>);
 #[verifier::reject_recursive_types(T)]
 pub struct ExJoinHandle<T>(std::thread::JoinHandle<T>);
 
+#[verifier::external_type_specification]
+#[verifier::external_body]
+#[verifier::reject_recursive_types(T)]
+pub struct ExReceiver<T>(crossbeam_channel::Receiver<T>);
+/// the receiving end that belongs to a sending end
+pub uninterp spec fn peer<T>(s: crossbeam_channel::Sender<T>) -> crossbeam_channel::Receiver<T>;
+pub assume_specification<T>[ crossbeam_channel::unbounded::<T> ]() -> (r: (crossbeam_channel::Sender<T>, crossbeam_channel::Receiver<T>))
+    ensures peer(r.0) == r.1;
+pub assume_specification<T>[ crossbeam_queue::ArrayQueue::<T>::new ](cap: usize) -> (r: crossbeam_queue::ArrayQueue<T>)
+    ensures queue_capacity(&r) == cap;
+pub uninterp spec fn queue_capacity<T>(q: &crossbeam_queue::ArrayQueue<T>) -> usize;
+/// `std::time::Duration == Duration` (derived) is equality of the values
+pub mod duration_axioms {
+    use super::*;
+    use vstd::std_specs::cmp::PartialEqSpec;
+    pub broadcast axiom fn ax_duration_eq(a: std::time::Duration, b: std::time::Duration)
+        ensures #[trigger] a.eq_spec(&b) == (a == b);
+    pub broadcast axiom fn ax_duration_eq_obeys()
+        ensures #[trigger] <std::time::Duration as PartialEqSpec<std::time::Duration>>::obeys_eq_spec();
+    pub broadcast group group_duration_axioms { ax_duration_eq, ax_duration_eq_obeys }
+}
+pub uninterp spec fn dur_secs(secs: u64) -> std::time::Duration;
+pub assume_specification[ std::time::Duration::from_secs ](secs: u64) -> (r: std::time::Duration)
+    ensures r == dur_secs(secs);
+//@ item src/lib.rs const ZERO_DURATION
+//@   execconst dur_secs(0)
+/// R26: `assert_eq!(a, b, "..")` (a panic when the two differ) becomes a call with the precondition `a == b`
+pub fn vassert_eq_fn(a: &std::time::Duration, b: &std::time::Duration)
+    requires
+        *a == *b, //@label assert_eq.holds C10
+{ }
+macro_rules! vassert_eq {
+    ($a:expr, $b:expr, $($rest:tt)*) => { vassert_eq_fn(&$a, &$b) };
+}
+
 /// permission: which message may be put on the channel to the writer thread
 pub uninterp spec fn send_ok(m: Seq<u8>) -> bool;
 pub uninterp spec fn send_msg_ok<T>(v: T) -> bool;
@@ -94,6 +129,7 @@ pub mod util {
 }
 pub mod shims {
     use super::*;
+    use std::time::Duration;
     /// SHIM (R4): the fn-pointer alias FormatFunction
     #[derive(Clone, Copy)]
     pub struct VFormatFn { _o: () }
@@ -109,10 +145,63 @@ pub mod shims {
     }
     /// SHIM for the targets of `write_buffered` / `flush` (StdstreamLock, BufWriter<StdStream>, &mut dyn Write of StdStream)
     pub trait VSink { }
-    pub struct StdStream { _o: () }
+    pub struct StdStream { pub id: int }
     pub struct StdstreamLock<'a> { _o: &'a () }
-    pub struct BufWriter<T> { _o: T }
+    pub struct BufWriter<T> { pub _o: T }
     pub struct VDynWrite { _o: () }
+    impl BufWriter<StdStream> {
+        #[verifier::external_body]
+        pub fn with_capacity(capacity: usize, inner: StdStream) -> (r: BufWriter<StdStream>)
+            ensures r._o == inner, buf_capacity(&r) == capacity,
+        { unimplemented!() }
+    }
+    pub uninterp spec fn buf_capacity(b: &BufWriter<StdStream>) -> usize;
+    //@ item src/write_mode.rs const DEFAULT_BUFFER_CAPACITY
+    //@ item src/write_mode.rs const DEFAULT_POOL_CAPA
+    //@ item src/write_mode.rs const DEFAULT_MESSAGE_CAPA
+    //@ item src/write_mode.rs enum WriteMode
+    //@   dropattr #[derive
+    //@ item src/write_mode.rs enum EffectiveWriteMode
+    impl WriteMode {
+        // the specification functions of unit `wmode` (same text), and the contract proved there for effective_write_mode
+        pub open spec fn capacity(&self) -> Option<usize> {
+            match self {
+                WriteMode::BufferAndFlush | WriteMode::BufferDontFlush => Some(DEFAULT_BUFFER_CAPACITY),
+                WriteMode::BufferAndFlushWith(n, _) => Some(*n),
+                WriteMode::BufferDontFlushWith(n) => Some(*n),
+                _ => None,
+            }
+        }
+        pub open spec fn is_direct(&self) -> bool { self is Direct || self is SupportCapture }
+        pub open spec fn flushes_itself(&self) -> bool { self is BufferAndFlush || self is BufferAndFlushWith }
+        pub open spec fn is_buffer_dont_flush(&self) -> bool { self is BufferDontFlush || self is BufferDontFlushWith }
+        pub open spec fn interval(&self) -> Duration {
+            match self {
+                WriteMode::Direct | WriteMode::SupportCapture | WriteMode::BufferDontFlush | WriteMode::BufferDontFlushWith(_) => dur_secs(0),
+                WriteMode::BufferAndFlush => dur_secs(1),
+                WriteMode::BufferAndFlushWith(_, d) => *d,
+                WriteMode::Async => dur_secs(1),
+                WriteMode::AsyncWith { flush_interval, .. } => *flush_interval,
+            }
+        }
+        pub open spec fn async_capas(&self) -> Option<(usize, usize)> {
+            match self {
+                WriteMode::Async => Some((DEFAULT_POOL_CAPA, DEFAULT_MESSAGE_CAPA)),
+                WriteMode::AsyncWith { pool_capa, message_capa, .. } => Some((*pool_capa, *message_capa)),
+                _ => None,
+            }
+        }
+        /// what the Logger never keeps for its writers (units `wmode`, `lbuild`)
+        pub open spec fn own_flushing(&self) -> bool { self.flushes_itself() || self.interval() != dur_secs(0) }
+    //@ sig src/write_mode.rs impl WriteMode / fn effective_write_mode
+    //@   ret r
+    //@   ens match r {
+    //@       EffectiveWriteMode::Direct => self.is_direct(),
+    //@       EffectiveWriteMode::BufferAndFlushWith(n) => Some(n) == self.capacity() && self.flushes_itself(),
+    //@       EffectiveWriteMode::BufferDontFlushWith(n) => Some(n) == self.capacity() && self.is_buffer_dont_flush(),
+    //@       EffectiveWriteMode::AsyncWith { pool_capa, message_capa, flush_interval } => Some((pool_capa, message_capa)) == self.async_capas() && flush_interval == self.interval(),
+    //@   }
+    }
     impl<'a> VSink for StdstreamLock<'a> {}
     impl VSink for BufWriter<StdStream> {}
     /// permission / result oracle: flushing the stream (directly, through its lock or through the BufWriter around it)
@@ -175,7 +264,9 @@ pub mod std_writer {
     use std::io::Write;
     use {crossbeam_channel::{Sender, SendError}, crossbeam_queue::ArrayQueue};
     type FormatFunction = VFormatFn;
-    broadcast use ax_send_msg_ok, ax_pooled_empty, ax_extend_u8_slice;
+    use super::threads::start_async_stdwriter;
+    use super::ZERO_DURATION;
+    broadcast use ax_send_msg_ok, ax_pooled_empty, ax_extend_u8_slice, super::duration_axioms::group_duration_axioms;
     //@ literals
 
     //@ item src/primary_writer/std_writer.rs struct StdWriter
@@ -195,8 +286,27 @@ pub mod std_writer {
     //@   props C15,C20,C04
     //@   req[std.AsyncHandle::send.pre.perm] send_ok(buffer@)
     }
+    impl AsyncHandle {
+        pub closed spec fn thread(&self) -> (StdStream, Arc<ArrayQueue<Vec<u8>>>, usize) { super::threads::std_thread_for(peer(self.sender)) }
+        pub closed spec fn pool(&self) -> Arc<ArrayQueue<Vec<u8>>> { self.a_pool }
+        pub closed spec fn capa(&self) -> usize { self.msg_capa }
+    //@ fn src/primary_writer/std_writer.rs impl AsyncHandle / fn new
+    //@   ret r
+    //@   props C15,C20
+    //@   ens[std.AsyncHandle::new.post] r.thread() == (stdstream, r.pool(), msg_capa) && r.capa() == msg_capa && queue_capacity(&*r.pool()) == pool_capa
+    }
     impl StdWriter {
         pub closed spec fn fmt(&self) -> VFormatFn { self.format }
+        pub closed spec fn stream(&self) -> StdStream { match self.writer { InnerStdWriter::Unbuffered(s) => s, InnerStdWriter::Buffered(m) => mutex_init(&m)._o, InnerStdWriter::Async(h) => h.thread().0 } }
+        pub closed spec fn buffered_with(&self) -> Option<usize> { match self.writer { InnerStdWriter::Buffered(m) => Some(buf_capacity(&mutex_init(&m))), _ => None } }
+        pub closed spec fn async_with(&self) -> Option<(usize, usize)> { match self.writer { InnerStdWriter::Async(h) => Some((queue_capacity(&*h.pool()), h.capa())), _ => None } }
+    //@ fn src/primary_writer/std_writer.rs impl StdWriter / fn new
+    //@   ret r
+    //@   props C20,C15,C10
+    //@   rule R26 1
+    //@   req[StdWriter::new.pre.no_own_flushing] !write_mode.own_flushing()
+    //@   ens[StdWriter::new.post.format] r.fmt() == format && r.stream() == stdstream
+    //@   ens[StdWriter::new.post.mode] r.buffered_with() == write_mode.capacity() && r.async_with() == write_mode.async_capas()
         pub closed spec fn is_async(&self) -> bool { self.writer is Async }
         pub closed spec fn poisoned(&self) -> bool { match self.writer { InnerStdWriter::Buffered(m) => mutex_poisoned(&m), _ => false } }
     //@ fn src/primary_writer/std_writer.rs impl LogWriter for StdWriter / fn write
@@ -224,12 +334,19 @@ pub mod threads {
     use super::shims::*;
     use super::util::{eprint_err, ErrorCode, ASYNC_FLUSH, ASYNC_SHUTDOWN};
     use crossbeam_queue::ArrayQueue;
-    use std::sync::Arc;
+    use crossbeam_channel::Receiver as CrossbeamReceiver;
+    use std::sync::{Arc, Mutex};
+    use std::thread::JoinHandle;
     use std::io::Write;
     broadcast use ax_pool_push_ok, ax_slice_ext;
     pub(crate) open spec fn is_flush(m: Seq<u8>) -> bool { m == super::util::ASYNC_FLUSH_spec() }
     pub(crate) open spec fn is_shutdown(m: Seq<u8>) -> bool { m == super::util::ASYNC_SHUTDOWN_spec() }
 
+    /// oracle: the writer thread that reads from a receiving end was started for this stream, pool and message capacity
+    pub uninterp spec fn std_thread_for(r: crossbeam_channel::Receiver<Vec<u8>>) -> (StdStream, Arc<ArrayQueue<Vec<u8>>>, usize);
+    //@ sig src/threads.rs fn start_async_stdwriter
+    //@   ret r
+    //@   ens std_thread_for(receiver) == (std_stream, t_pool, msg_capa)
     /// The std writer thread's reaction to one received message. Returns true iff the thread stops (the `break`).
     #[verifier::exec_allows_no_decreases_clause]
     #[verifier::loop_isolation(false)]
